@@ -107,13 +107,15 @@ func checks() map[string]CheckDef {
 		Runs: []HRun{
 			{Pkg: "internal/zzverif/c05", Func: "HarnessFaultyAdd", Quick: [][]int64{{2}, {3}}, Thorough: [][]int64{{3}, {4}},
 				Labels: []string{"C05/structurally-valid-after-fault", "C05/acknowledged-headers-unaltered", "C05/redelivery-not-stuck", "C05/redelivery-reaches-uninterrupted-state", "C05/failed-store-reports-error-and-no-event"}},
+			{Pkg: "database", Func: "HarnessInitRestart", Quick: [][]int64{{1}, {3}}, Thorough: [][]int64{{4}, {5}},
+				Labels: []string{"C05/first-start-succeeds", "C05/first-start-creates-exactly-genesis", "C05/restart-succeeds", "C05/restart-changes-nothing"}},
 			{Pkg: "database", Func: "HarnessRestart", Quick: [][]int64{{0}, {1}, {3}}, Thorough: [][]int64{{4}, {5}},
 				Labels: []string{"C05/genesis-row-wellformed", "C05/restart-succeeds", "C05/empty-store-gets-exactly-genesis", "C05/restart-changes-nothing"}},
 			{Pkg: "internal/zzverif/c05", Func: "HarnessFaultyReorg", Quick: [][]int64{{4}}, Thorough: [][]int64{{5}},
 				Labels: []string{"C05/structurally-valid-after-fault", "C05/redelivery-reaches-uninterrupted-state"}},
 		},
 		Bounds:  []string{"the slice 'submitted header is new and its parent is a stored STALE header' (the submissions that can reorganise) one row further: k=4 quick, k=5 thorough", "one ingestion step from an arbitrary INV-H store of k rows (quick k<=3, thorough k<=4) with ONE fault: kill right after, or failure of, the j-th write-transaction commit, j in 1..3 (every write boundary of an Add incl. both state updates of a reorganisation and the insert); then restart (new connection) and redelivery of the same header, compared row by row with the uninterrupted run from the same store", "bits of the submitted header from a 3-entry menu; stored works arbitrary positive"},
-		Outside: []string{"torn writes inside one SQLite transaction (SQLite's atomicity is trusted)", "migrations at restart (golang-migrate); the genesis insertion that every start performs IS checked (HarnessRestart: on any table of k rows with distinct hashes it changes nothing, on an empty table it creates exactly the genesis row)", "several faults in one history; redelivery of a whole interrupted branch in another order", "genesis insertion / import at restart (see C17 kernels)"},
+		Outside: []string{"torn writes inside one SQLite transaction (SQLite's atomicity is trusted)", "opening the file and the migration library at restart (sqlx.Open / golang-migrate are stubbed: the schema is in place); the rest of database.Init IS executed from source (HarnessInitRestart: a first start creates exactly genesis; a restart on any table of k rows with distinct hashes succeeds and changes nothing)", "several faults in one history; redelivery of a whole interrupted branch in another order", "genesis insertion / import at restart (see C17 kernels)"},
 		Stubs:   []string{"commit fault injection: symbolically a counter in the sqlx model; natively (witness and counterexample replays) a database/sql driver wrapper around go-sqlite3 that fails or panics at the chosen commit"},
 	})
 	add(CheckDef{
